@@ -443,6 +443,8 @@ static void copy_lvalue_range (svalue_t * from) {
           {
             char *tmp, *dstr = owner->u.string;
 
+            if ((size_t)(size - ind2 + ind1 + fsize) > (size_t)CONFIG_INT (__MAX_STRING_LENGTH__))
+              error ("*String too long (result of range assignment exceeds maximum string length).");
             owner->u.string = tmp = new_string (size - ind2 + ind1 + fsize, "copy_lvalue_range");
             if (ind1 >= 1)
               {
@@ -573,6 +575,8 @@ static void assign_lvalue_range (svalue_t * from) {
           {
             char *tmp, *dstr = owner->u.string;
 
+            if ((size_t)(size - ind2 + ind1 + fsize) > (size_t)CONFIG_INT (__MAX_STRING_LENGTH__))
+              error ("*String too long (result of range assignment exceeds maximum string length).");
             owner->u.string = tmp =
               new_string (size - ind2 + ind1 + fsize, "assign_lvalue_range");
             if (ind1 >= 1)
